@@ -48,6 +48,10 @@ OPERANDS = [['n', 3], ['n', -2.5], ['n', 0], ['s', '7'], ['s', 'abc'],
             ['n', 1e308], ['n', -1.5e308], ['n', 5e-324], ['s', '1e308'],
             # TEXT that spells an error code is text, not an error
             ['s', '#DIV/0!'], ['s', '#N/A'], ['s', '#REF!']]
+# operands PRODUCED by formulas at the edge of the number range (operator
+# family, formula mode only)
+FORMULA_OPERANDS = [['f', '=10^300*10^300'], ['f', '=10^308+10^308'],
+                    ['f', '=-(10^200)*10^200'], ['f', '=2^1023']]
 # formulas that YIELD each error in a cell
 YIELD = {'#DIV/0!': '=1/0', '#N/A': '=NA()', '#VALUE!': '="a"+1',
          '#NUM!': '=SQRT(-1)', '#REF!': '=#REF!', '#NAME?': '=#NAME?',
@@ -151,8 +155,9 @@ def enumerate_cases(tier, shard=0, nshards=1):
                             'code': code})
     # (d)
     for sym in list(BIN) + ['u-']:
-        for a in OPERANDS:
-            for b in (OPERANDS if sym != 'u-' else [None]):
+        for a in OPERANDS + FORMULA_OPERANDS:
+            for b in (OPERANDS + FORMULA_OPERANDS if sym != 'u-'
+                      else [None]):
                 for mode in ('call', 'formula'):
                     out.append({'k': 'op-types', 'op': sym, 'a': a, 'b': b,
                                 'mode': mode})
@@ -255,6 +260,8 @@ def _place(cells, presets, addr, v):
         cells[addr] = v[1]
     elif t == 'e':
         cells[addr] = YIELD[v[1]]
+    elif t == 'f':
+        cells[addr] = v[1]          # a formula producing the operand
     else:
         cells[addr] = 0
         presets[addr] = (v[1] if t != 'd' else datetime.datetime(
@@ -531,6 +538,8 @@ def _agg_err(case, res):
 
 def _op_types(case, res):
     sym, a, b, mode = case['op'], case['a'], case['b'], case['mode']
+    if mode == 'call' and 'f' in (a[0], (b or ['x'])[0]):
+        return res          # formula operands exist in models only
     if sym == 'u-':
         if mode == 'call':
             o = _call('OP_NEG', to_lib(a))
